@@ -52,7 +52,7 @@ func checkC07(ctx *Ctx, r *Report, tier string) {
 	if cf := ctx.ssaFunc("render", "(*dcache3).verifCtlIsEmptyWrongLevel"); cf != nil {
 		checkIsEmpty(ctx, r, cf, 3, "verifCtl-octree")
 		r.expectControl("Q3", "verifCtl-octree|threshold-index")
-	} else {
+	} else if !r.controlSkipped() {
 		r.undecided("Q3", "control", 0, "positive control missing")
 	}
 	r.floor("Q1", 2*3)
